@@ -160,7 +160,9 @@ def check_layout(B, ed, nodes, newrefs=None):
             continue   # reference no longer fits an int: refused by the library (checked through ds.invalid)
         got = (got_kind, n["nbits"], n["scale"], n["ref"], n["af"])
         exp = (kind, width, scale, ref, af % 256)
-        if kind in ('ccitt', 'code', 'flag', 'ieee', 'newref'):
+        if kind in ('ccitt', 'code', 'flag', 'ieee', 'newref') or d not in B:
+            # (a local descriptor described by 2 06 YYY is YYY opaque bits: FM 94 gives it no scale or reference,
+            #  whatever 2 02 / 2 07 is in force; only kind, width and associated field are regulated)
             got = (got[0], got[1], got[4]); exp = (exp[0], exp[1], exp[4])
         if got != exp:
             return "%06d: layout (type,width,scale,ref,af) is %s, FM 94 Table C gives %s" % (d, got, exp), None
